@@ -41,16 +41,18 @@ def install():
 class Subject:
     """one generated input with everything the oracles need"""
 
-    def __init__(self, seed, arch=None, small=False, families=None, mean_units=None, forced=None, form=None, typable=False, sp=None, respell=False):
+    def __init__(self, seed, arch=None, small=False, families=None, mean_units=None, forced=None, form=None, typable=False, sp=None, respell=False, ast=None, targets=None):
         rng = random.Random(seed)
         self.seed = seed
-        if arch == "hostile_h":
+        if ast is not None:
+            self.ast = ast
+        elif arch == "hostile_h":
             self.ast = gen.arch_hostile_h(gen.Ctx(rng, small=True, form=form), families, mean_units)
         else:
             self.ast = gen.make_molecule(rng, arch, small=small, families=families, mean_units=mean_units, form=form, typable=typable, respell=respell)
         self.hostile_h = arch == "hostile_h"
-        self.targets = {}
-        if forced is not None:
+        self.targets = dict(targets or {})
+        if forced is not None and ast is None:
             for k, e in enumerate(self.ast.elements):
                 if isinstance(e, StochAst):
                     um = sum(gen.unit_mass(u) for u in e.repeats) / len(e.repeats)
